@@ -41,14 +41,15 @@ Neutral == [fam |-> "-", tail |-> <<<<"u">>>>, strip |-> "none", add |-> "none",
             ph |-> <<>>, phc |-> 0, pass |-> FALSE, peer |-> "untrusted", fh |-> NoFh, rb |-> FALSE]
 
 Schemes == <<"", "http", "https">>
-Methods == <<"GET", "POST", "PUT", "PATCH", "DELETE", "OPTIONS", "PROPFIND", "FOO">>
+(* methods are case-sensitive tokens: "Purge" and "patch" go out as they came in *)
+Methods == <<"GET", "POST", "PUT", "PATCH", "DELETE", "OPTIONS", "PROPFIND", "FOO", "Purge", "patch">>
 SomeQueries == <<<<>>, <<"plain">>, <<"plain", "amp">>, <<"plus", "pct20">>>>
 
 FamP ==
   LET base == SetToSeq({[Neutral EXCEPT !.fam = "P", !.tail = t, !.strip = sa[1], !.add = sa[2], !.slashes = sl] :
                           t \in Tails, sa \in StripAdd, sl \in {"off", "no_decode", "on"}})
       ok == SelectSeq(base, LAMBDA x : x.slashes # "off" \/ ~HasS(x.tail))
-  IN [i \in 1..Len(ok) |-> [ok[i] EXCEPT !.scheme = Schemes[(i % 3) + 1], !.method = Methods[(i % 8) + 1],
+  IN [i \in 1..Len(ok) |-> [ok[i] EXCEPT !.scheme = Schemes[(i % 3) + 1], !.method = Methods[(i % 10) + 1],
                                          !.query = SomeQueries[(i % 4) + 1]]]
 
 (* parameter kinds: plain a=1, dup a=2, tok tok=..., tok2 (second tok), enctok (key spelled t%6Fk), amp (value   *)
@@ -65,7 +66,7 @@ FamQ ==
   LET base == SetToSeq({[Neutral EXCEPT !.fam = "Q", !.query = q, !.qstrip = qs] :
                           q \in Queries, qs \in {<<>>, <<"tok">>, <<"tok", "a">>, <<"my key", "tok">>}})
   IN [i \in 1..Len(base) |-> [base[i] EXCEPT !.strip = IF i % 5 = 0 THEN "seg1" ELSE "none",
-                                               !.method = Methods[(i % 8) + 1],
+                                               !.method = Methods[(i % 10) + 1],
                                                !.scheme = Schemes[(i % 3) + 1]]]
 
 (* blank: the pipeline sets the header to an empty value (a template that renders nothing) *)
@@ -75,7 +76,7 @@ PhSeqs == {SetToSeq(s) : s \in (SUBSET PhNames) \ {{}}}
 FamH ==
   LET base == SetToSeq({[Neutral EXCEPT !.fam = "H", !.ph = ph, !.phc = n, !.pass = ps, !.peer = pr] :
                           ph \in PhSeqs, n \in 0..2, ps \in BOOLEAN, pr \in {"untrusted", "trusted"}})
-  IN [i \in 1..Len(base) |-> [base[i] EXCEPT !.method = Methods[(i % 8) + 1],
+  IN [i \in 1..Len(base) |-> [base[i] EXCEPT !.method = Methods[(i % 10) + 1],
                                                !.body = IF i % 3 = 0 THEN "small" ELSE "none"]]
 
 FamF ==
@@ -89,9 +90,12 @@ FamF ==
 FamB ==
   (* text / badjson / json / form: bodies with a content type; rb: a pipeline step reads Request.Body *)
   LET base == SetToSeq({[Neutral EXCEPT !.fam = "B", !.method = Methods[m], !.body = b, !.strip = st, !.rb = rb] :
-                          m \in 1..8, b \in {"none", "empty", "small", "big", "text", "badjson", "json", "form"},
+                          m \in 1..10, b \in {"none", "empty", "small", "big", "text", "badjson", "json", "form"},
                           st \in {"none", "seg2"}, rb \in BOOLEAN})
-  IN base
+      (* huge: more than a mebibyte, sent with a length and chunked, read by a pipeline step or not *)
+      huge == SetToSeq({[Neutral EXCEPT !.fam = "B", !.method = mt, !.body = b, !.rb = rb] :
+                          mt \in {"POST", "PUT"}, b \in {"huge", "hugechunked"}, rb \in BOOLEAN})
+  IN base \o huge
 
 ASSUME
   LET cs == FamP \o FamQ \o FamH \o FamF \o FamB
